@@ -20,7 +20,7 @@ structure MeasOk (cfg : Cfg) (m : Meas) : Prop where
 theorem meas_roundtrip (cfg : Cfg) (m : Meas) (h : MeasOk cfg m) :
     measFromProto cfg (measToProto m) = measNorm m := by
   obtain ⟨metrics, el, steps, cp⟩ := m
-  simp only [measFromProto, measToProto, measNorm, Meas.mk.injEq, and_true]
+  simp only [measFromProto, measToProto, measNorm, Meas.mk.injEq, and_true, Option.getD_some]
   refine ⟨metrics_roundtrip metrics h.wf.names_nodup, ?_⟩
   by_cases hr : cfg.readNanos = true
   · simp only [hr, if_true]
